@@ -198,11 +198,22 @@ class HistogramCollection(Container[Histogram1D], ObjectWithBinning):
             )
             for item in a_dict["histograms"]
         )
-        return HistogramCollection(*histograms)
+        members = list(histograms)
+        binning = a_dict.get("binning")
+        return HistogramCollection(
+            *members,
+            # (Needed and allowed only as long as there is no member to take it from)
+            binning=BinningBase.from_dict(binning) if binning and not members else None,
+            name=a_dict.get("name"),
+            title=a_dict.get("title"),
+        )
 
     def to_dict(self) -> Dict[str, Any]:
         return {
             "histogram_type": "histogram_collection",
+            "name": self.name,
+            "title": self.title,
+            "binning": self.binning.to_dict(),
             "histograms": [h.to_dict() for h in self.histograms],
         }
 
